@@ -55,6 +55,8 @@ func runC05(c *Ctx) {
 	defer c05HostArrayPrivate(c)
 	c.Rule("C05.R8", "a sampling policy returns no host only after a full scan (or another balancer) was consulted", 5)
 	defer c05SampleThenScan(c)
+	c.Rule("C05.R9", "a pushed host set is always installed: every update handler reaches Cluster.UpdateHosts, the manager always runs the handler", 4)
+	defer c05ReplacementInstalled(c)
 	c.Assumptions = append(c.Assumptions,
 		"Health() observed true earlier on the path counts as healthy (a concurrent flip after the check is outside the clause)",
 		"no reflection/unsafe in the balancers",
